@@ -1,5 +1,5 @@
 (** C18 — term predicates agree with their definitions on every term *)
-From LC Require Import Model.TermOps Spec.Predicates Proofs.TermOps.
+From LC Require Import Model.TermOps Spec.Predicates Proofs.TermOps Gen.TermSrc Proofs.TermSrcTie.
 
 Theorem C18_has_free_variables : forall t, has_free_variables t = has_fv_spec t.
 Proof. exact has_free_variables_spec. Qed.
@@ -17,6 +17,18 @@ Proof. exact is_supercombinator_total. Qed.
 Theorem C18_is_supercombinator : forall t b, is_supercombinator t = Some b -> (b = true <-> supercomb t).
 Proof. exact is_supercombinator_spec. Qed.
 
+(** The same statements about the functions REGENERATED from src/term.rs on every run (Gen/TermSrc.v,
+    lib/trans_term.py): what the source says now meets the definitions. *)
+Theorem C18_src_has_free_variables : forall t, TSrc.has_free_variables t = has_fv_spec t.
+Proof. exact src_has_free_variables. Qed.
+Theorem C18_src_max_depth : forall t, TSrc.max_depth t = max_depth_spec t.
+Proof. exact src_max_depth. Qed.
+Theorem C18_src_is_isomorphic_to : forall t u, TSrc.is_isomorphic_to t u = true <-> t = u.
+Proof. exact src_is_isomorphic_to. Qed.
+Theorem C18_src_is_supercombinator : forall t,
+  exists b, TSrc.is_supercombinator t = Some b /\ (b = true <-> supercomb t).
+Proof. exact src_is_supercombinator. Qed.
+
 (** non-vacuity: the defect-D6 witness is not a supercombinator, λ.1 (λ.1) is *)
 Example C18_example_no : is_supercombinator (Abs (App (Abs (Var 2)) (Var 1))) = Some false.
 Proof. reflexivity. Qed.
@@ -28,3 +40,7 @@ Print Assumptions C18_max_depth.
 Print Assumptions C18_is_isomorphic_to.
 Print Assumptions C18_is_supercombinator_total.
 Print Assumptions C18_is_supercombinator.
+Print Assumptions C18_src_has_free_variables.
+Print Assumptions C18_src_max_depth.
+Print Assumptions C18_src_is_isomorphic_to.
+Print Assumptions C18_src_is_supercombinator.
